@@ -102,6 +102,41 @@ def dynamic_class_names(ph):
             out.setdefault(c, [])
             if m not in out[c]:
                 out[c].append(m)
+    # keyword-named data items (Sequence, ShorthandPack, ...): every name of every module-level *_NAMES set, run the same way
+    extra = []
+    for var, val in h.env.vars.items():
+        if var.endswith('_NAMES') and isinstance(val, (set, frozenset, list, tuple)) and all(isinstance(x, str) for x in val):
+            extra += sorted(val)
+    for m in extra:
+        found = set()
+        for n in (1, 2, 0, 3):
+            toks = [PA.tok('t%d' % i) for i in range(n)]
+
+            def body2(run, toks=toks, m=m):
+                for t in toks:
+                    run.assume(t.t != I.str_id('='))
+                item, it, line = PA.run_parse(h, ph, run, [m] + toks)
+                return item
+            try:
+                paths = I.explore(body2, I.IntDom)
+            except I.Unsupported:
+                continue
+            for p in paths:
+                if p.kind == 'return' and isinstance(p.value, I.SObj):
+                    found.add(p.value.cls.name)
+            if found:
+                break
+        for c in found:
+            out.setdefault(c, [])
+            if m not in out[c]:
+                out[c].append(m)
+    # classes the runs did not reach: the reading of parse_item's if-chain, where it has an answer
+    try:
+        for c, ms in class_names(h).items():
+            if c not in out:
+                out[c] = list(ms)
+    except Exception:
+        pass
     _NAMES_CACHE[key] = out
     return out
 
